@@ -295,6 +295,9 @@ const (
 	longRegistration = 20 * time.Second // never reached by a plugin that registers at all
 	slowRegistration = 2500 * time.Millisecond
 	requestTimeout   = 10 * time.Second
+	// request time-out while Start runs in cases with a probe that hangs or is slow in Synchronize: at least 10 x
+	// probe.SyncSlowDelay, and far above the few milliseconds a healthy probe needs
+	syncRequestTimeout = 3 * time.Second
 )
 
 func (e *launchEnv) run(lc *launchCase) error {
@@ -318,6 +321,12 @@ func (e *launchEnv) run(lc *launchCase) error {
 		adaptation.SetPluginRegistrationTimeout(longRegistration)
 	}
 	adaptation.SetPluginRequestTimeout(requestTimeout)
+	for _, o := range lc.Outcomes {
+		if o == probe.BSyncHang || o == probe.BSyncSlow {
+			adaptation.SetPluginRequestTimeout(syncRequestTimeout)
+			defer adaptation.SetPluginRequestTimeout(requestTimeout)
+		}
+	}
 
 	pods := []*api.PodSandbox{{Id: "pod0", Name: "pod0", Namespace: "default"}}
 	ctrs := []*api.Container{{Id: "ctr0", PodSandboxId: "pod0", Name: "ctr0"}}
@@ -347,6 +356,7 @@ func (e *launchEnv) run(lc *launchCase) error {
 		return fmt.Errorf("adaptation.New: %w", err)
 	}
 	serr := a.Start()
+	adaptation.SetPluginRequestTimeout(requestTimeout) // events get the long time-out again
 	lc.StartOK = serr == nil
 	if serr != nil {
 		lc.StartErr = serr.Error()
@@ -544,10 +554,13 @@ func specConfig(ds []dropin, idx, base string) (string, bool) {
 
 func launches(o string) bool { return o != "execfail" }
 func configured(o string) bool {
-	return o == "" || o == probe.BCfgErr || o == probe.BSyncFail || o == probe.BDieLater || o == probe.BHangLater
+	return o == "" || o == probe.BCfgErr || o == probe.BSyncFail || o == probe.BDieLater || o == probe.BHangLater ||
+		o == probe.BSyncHang || o == probe.BSyncSlow
 }
-func active(o string) bool   { return o == "" || o == probe.BDieLater || o == probe.BHangLater }
-func survives(o string) bool { return o == "" }
+func active(o string) bool {
+	return o == "" || o == probe.BDieLater || o == probe.BHangLater || o == probe.BSyncSlow
+}
+func survives(o string) bool { return o == "" || o == probe.BSyncSlow }
 
 // oracle evaluates the English statement on the observation; returns the list of clauses violated.
 func oracle(lc *launchCase) []string {
@@ -708,6 +721,10 @@ func outcomeCoq(o string) string {
 		return "ODieLater"
 	case probe.BHangLater:
 		return "OHangLater"
+	case probe.BSyncHang:
+		return "OSyncFail" // timed_outcome: it does not answer within the request time-out
+	case probe.BSyncSlow:
+		return "OGood" // timed_outcome: it answers within the request time-out
 	}
 	panic("outcome " + o)
 }
@@ -1003,6 +1020,42 @@ func genStartFail(r *rand.Rand, i int) *launchCase {
 	return lc
 }
 
+// synctimeout: at least three plugins; one hangs in Synchronize until the runtime's (short) request time-out, with
+// zero to two healthy plugins before it and at least two after it in index order; or (every fourth case) twelve
+// plugins that each answer Synchronize after a tenth of the time-out, together longer than one time-out.  Every
+// plugin's start depends on its own behaviour only: the healthy and the slow ones are all kept and invoked in order.
+func genSyncTimeout(r *rand.Rand, i int) *launchCase {
+	lc := newCase("synctimeout", i, r)
+	ns := nameSet{}
+	idxs := r.Perm(100)
+	if i%4 == 3 {
+		idxs = idxs[:12]
+		sort.Ints(idxs)
+		for _, x := range idxs {
+			lc.add(ns.fresh(r, func() string { return fmt.Sprintf("%02d-%s%s", x, []string{"", "p-"}[r.Intn(2)], probe.BSyncSlow) }), "file", 0o755)
+		}
+		shuffleEntries(r, lc)
+		return lc
+	}
+	k := 3 + r.Intn(3)
+	idxs = idxs[:k]
+	sort.Ints(idxs)
+	hang := r.Intn(k - 2) // at least two plugins after it
+	for n, x := range idxs {
+		x := x
+		switch {
+		case n == hang:
+			lc.add(ns.fresh(r, func() string { return fmt.Sprintf("%02d-%s%s", x, []string{"", "my"}[r.Intn(2)], probe.BSyncHang) }), "file", 0o755)
+		case n > hang && r.Intn(4) == 0:
+			lc.add(ns.fresh(r, func() string { return fmt.Sprintf("%02d-%s", x, probe.BSyncSlow) }), "file", 0o755)
+		default:
+			lc.add(ns.fresh(r, func() string { return fmt.Sprintf("%02d-%s", x, goodBases[r.Intn(len(goodBases))]) }), "file", execModes[r.Intn(len(execModes))])
+		}
+	}
+	shuffleEntries(r, lc)
+	return lc
+}
+
 // ---------------------------------------------------------------- corpus
 
 // loadCorpus reads <verif>/corpus/C18/*.json: directory contents replayed before the generated streams.
@@ -1089,6 +1142,7 @@ func driveLaunch(c *hx.Ctx) error {
 		{"order", c.Pick(10, 150), genOrder},
 		{"stopsilent", c.Pick(8, 120), genSilent},
 		{"startfail", c.Pick(6, 90), genStartFail},
+		{"synctimeout", c.Pick(2, 24), genSyncTimeout},
 	}
 	corpus, err := loadCorpus()
 	if err != nil {
@@ -1138,6 +1192,23 @@ func driveLaunch(c *hx.Ctx) error {
 			} else {
 				c.Eval("launch/"+s.name+"/"+fmt.Sprint(lc.Entries, lc.Dropins), launched > 0 || !lc.StartOK)
 			}
+			{
+				// plugins after (in index order) one that hangs in Synchronize, and slow ones
+				ents := append([]entry{}, lc.Entries...)
+				sort.Slice(ents, func(a, b int) bool { return ents[a].Name < ents[b].Name })
+				hung := false
+				for _, en := range ents {
+					switch o := lc.Outcomes[en.Name]; {
+					case o == probe.BSyncHang:
+						hung = true
+						c.Count("c18.sync_timeout.hanging", 1)
+					case o == probe.BSyncSlow:
+						c.Count("c18.sync_timeout.slow", 1)
+					case hung && o == "" && en.Kind == "file" && en.Perm&0o111 != 0:
+						c.Count("c18.sync_timeout.healthy_after_hanging", 1)
+					}
+				}
+			}
 			for _, d := range lc.Dropins {
 				if d.Kind == "content" && d.Content == "" {
 					c.Count("c18.dropin.empty", 1)
@@ -1183,11 +1254,15 @@ func driveLaunch(c *hx.Ctx) error {
 		c.Stats.Distribution["c18.syncfn_fails.launched"] == 0 || c.Stats.Distribution["c18.dropin_pair.31"] == 0 {
 		c.HarnessError("start-failure / empty drop-in cases missed their target shape: %v", c.Stats.Distribution)
 	}
+	if c.Stats.Distribution["c18.sync_timeout.hanging"] == 0 || c.Stats.Distribution["c18.sync_timeout.healthy_after_hanging"] < 2 ||
+		c.Stats.Distribution["c18.sync_timeout.slow"] < 12 {
+		c.HarnessError("synchronisation time-out cases missed their target shape: %v", c.Stats.Distribution)
+	}
 	if n := c.Stats.Distribution["c18.silent_stop.cases"]; n == 0 || 2*c.Stats.Distribution["c18.silent_stop.noticed_before_stop"] < n {
 		c.HarnessError("silent-stop cases missed their target shape (Stop after the runtime has noticed a lost connection, no event in between): %v", c.Stats.Distribution)
 	}
 	c.Stats.Extra = map[string]interface{}{"probe_build_ms": buildMs, "cases": total, "cases_failing_go_oracle": failing,
 		"observed_only": "launch-once, environment, descriptor inheritance (/proc/self/fd of the child), kill and reap (/proc/<pid>/stat) are operating-system behaviour observed on the implementation; they are not proved"}
-	c.Stats.Rule = "generated plugin directories (probe copies with every execute-bit pattern, non-executables, sub-directories, symbolic links, non-binaries, malformed names), drop-in directories (all 16 state pairs of idx-name.conf x name.conf over missing / content / unreadable / present but empty), failure modes chosen by the probe's file name (exits at once, never registers, closes its socket, Configure fails, Synchronize fails, exits later, closes its connection later and keeps running) started by a real Adaptation; after the later deaths either three more events are sent (the dead plugins are dropped, killed and reaped) or - stream stopsilent and two corpus cases - NO event or request: the driver waits until the runtime has closed its end of the lost connections (its own descriptor table) and calls Stop; stream startfail and two corpus cases: the runtime's SyncFn returns an error before or after calling the NRI callback, Start must fail and every process launched by the attempt must be gone when it returns; after Stop every launched pid must be gone from the process table (no live process, no zombie child); a case is non-trivial when at least one process was launched or Start failed on a malformed name / unreadable drop-in"
+	c.Stats.Rule = "generated plugin directories (probe copies with every execute-bit pattern, non-executables, sub-directories, symbolic links, non-binaries, malformed names), drop-in directories (all 16 state pairs of idx-name.conf x name.conf over missing / content / unreadable / present but empty), failure modes chosen by the probe's file name (exits at once, never registers, closes its socket, Configure fails, Synchronize fails, exits later, closes its connection later and keeps running) started by a real Adaptation; after the later deaths either three more events are sent (the dead plugins are dropped, killed and reaped) or - stream stopsilent and two corpus cases - NO event or request: the driver waits until the runtime has closed its end of the lost connections (its own descriptor table) and calls Stop; stream synctimeout and two corpus cases: with a 3 s request time-out one plugin never answers Synchronize (it is dropped and killed) while healthy plugins before and after it in index order, and twelve plugins that each answer after 300 ms, must all be kept and invoked in order; stream startfail and two corpus cases: the runtime's SyncFn returns an error before or after calling the NRI callback, Start must fail and every process launched by the attempt must be gone when it returns; after Stop every launched pid must be gone from the process table (no live process, no zombie child); a case is non-trivial when at least one process was launched or Start failed on a malformed name / unreadable drop-in"
 	return nil
 }
